@@ -210,8 +210,7 @@ def rule_from_shorthand(ctx, mod, R="R-C03-F"):
                               "from_shorthand(%s.., %r, up=%s)" % (L, sh, up), why)
 
 
-def rule_invert(ctx, mod):
-    R = "R-C03-7"
+def rule_invert(ctx, mod, R="R-C03-7"):
     fi = mod.func("invert")
     ctx.touch(fi)
     elems = [Opaque("e0"), Opaque("e1"), Opaque("e2")]
